@@ -35,6 +35,12 @@
 #include "pixman-private.h"
 #include "pixman-combine32.h"
 #include "pixman-inlines.h"
+
+/* The per-pixel fetchers are handed arbitrary 16.16 coordinates (the quotient
+ * of a projective transform is simply narrowed to 32 bits), so the offsets
+ * they subtract must wrap around rather than overflow a signed integer.
+ */
+#define FIXED_SUB(a, b) ((pixman_fixed_t) ((uint32_t) (a) - (uint32_t) (b)))
 #include "dither/blue-noise-64x64.h"
 
 /* Fetch functions */
@@ -77,8 +83,8 @@ bits_image_fetch_pixel_nearest (bits_image_t   *image,
 				get_pixel_t	get_pixel,
 				void	       *out)
 {
-    int x0 = pixman_fixed_to_int (x - pixman_fixed_e);
-    int y0 = pixman_fixed_to_int (y - pixman_fixed_e);
+    int x0 = pixman_fixed_to_int (FIXED_SUB (x, pixman_fixed_e));
+    int y0 = pixman_fixed_to_int (FIXED_SUB (y, pixman_fixed_e));
 
     if (image->common.repeat != PIXMAN_REPEAT_NONE)
     {
@@ -108,8 +114,8 @@ bits_image_fetch_pixel_bilinear_32 (bits_image_t   *image,
     int32_t distx, disty;
     uint32_t *ret = out;
 
-    x1 = x - pixman_fixed_1 / 2;
-    y1 = y - pixman_fixed_1 / 2;
+    x1 = FIXED_SUB (x, pixman_fixed_1 / 2);
+    y1 = FIXED_SUB (y, pixman_fixed_1 / 2);
 
     distx = pixman_fixed_to_bilinear_weight (x1);
     disty = pixman_fixed_to_bilinear_weight (y1);
@@ -157,8 +163,8 @@ bits_image_fetch_pixel_bilinear_float (bits_image_t   *image,
     float distx, disty;
     argb_t *ret = out;
 
-    x1 = x - pixman_fixed_1 / 2;
-    y1 = y - pixman_fixed_1 / 2;
+    x1 = FIXED_SUB (x, pixman_fixed_1 / 2);
+    y1 = FIXED_SUB (y, pixman_fixed_1 / 2);
 
     distx = ((float)pixman_fixed_fraction(x1)) / 65536.f;
     disty = ((float)pixman_fixed_fraction(y1)) / 65536.f;
@@ -276,8 +282,8 @@ bits_image_fetch_pixel_convolution (bits_image_t   *image,
 
     params += 2;
 
-    x1 = pixman_fixed_to_int (x - pixman_fixed_e - x_off);
-    y1 = pixman_fixed_to_int (y - pixman_fixed_e - y_off);
+    x1 = pixman_fixed_to_int (FIXED_SUB (FIXED_SUB (x, pixman_fixed_e), x_off));
+    y1 = pixman_fixed_to_int (FIXED_SUB (FIXED_SUB (y, pixman_fixed_e), y_off));
     x2 = x1 + cwidth;
     y2 = y1 + cheight;
 
@@ -359,8 +365,8 @@ bits_image_fetch_pixel_separable_convolution (bits_image_t  *image,
 
     y_params = params + 4 + (1 << x_phase_bits) * cwidth + py * cheight;
 
-    x1 = pixman_fixed_to_int (x - pixman_fixed_e - x_off);
-    y1 = pixman_fixed_to_int (y - pixman_fixed_e - y_off);
+    x1 = pixman_fixed_to_int (FIXED_SUB (FIXED_SUB (x, pixman_fixed_e), x_off));
+    y1 = pixman_fixed_to_int (FIXED_SUB (FIXED_SUB (y, pixman_fixed_e), y_off));
     x2 = x1 + cwidth;
     y2 = y1 + cheight;
 
